@@ -485,6 +485,8 @@ def run(P, R, L):
     R.clause("TS-3", "no abandon() of a table builder is reachable from behind its finalize() (abandon asserts that the file was not closed)")
     R.once(blind.ts3_no_abandon_after_finalize, P, R, L)
     from . import round12
+    R.clause("ORD-10b", "the compaction thread leaves its task loop only over the Terminate arm: a Compaction task that was scheduled right before the close is still serviced (Drop waits for its scheduled flag before it sends Terminate)")
+    round12.ord10b_worker_leaves_only_on_terminate(P, R, L)
     R.clause("ERR-6", "no fallible storage result is answered with unwrap / expect (a panic on the compaction thread leaves the scheduled flag set: every waiter hangs)")
     R.once(round12.err6_no_panic_on_a_fallible_result, P, R, L)
     R.clause("PAIR-10", "a table builder that was finalized/abandoned is removed from the compaction state on every path (a later abandon() of a closed "
